@@ -32,8 +32,9 @@ pub enum UnionOrder {
     /// (`UnionArray::logical_nulls`), placed by `nulls_first` whatever its type id; other slots by type id, then by
     /// the child value under `child_opts`; everything reversed when descending.
     Comparator,
-    /// arrow-row documentation ("Union Encoding"/"Union Ordering"): no union-level null, type id first (reversed when
-    /// descending), then the child encoding (child converter built with `child_opts`).
+    /// arrow-row documentation ("Union Encoding"/"Union Ordering"): no union-level null (nulls are represented by the
+    /// child encoding), values of different types by type id, values of the same type by the order of that type
+    /// (children under `child_opts`); the whole column order reversed when descending.
     RowFormat,
 }
 
@@ -118,10 +119,7 @@ pub fn model_cmp(ty: &LType, a: &LValue, b: &LValue, o: SortOptions, um: UnionOr
                 i1.cmp(i2)
             } else {
                 let f = &fields.iter().find(|x| x.0 == *i1).expect("union id").1;
-                let r = model_cmp(&f.ty, v1, v2, c, um);
-                // RowFormat: the child bytes are copied as encoded by the child converter (ascending) and only the
-                // type id byte is negated, so undo the reversal applied below
-                if um == UnionOrder::RowFormat && o.descending { r.reverse() } else { r }
+                model_cmp(&f.ty, v1, v2, c, um)
             }
         }
         _ => panic!("model_cmp: value does not fit type {:?}: {:?} / {:?}", ty, a, b),
@@ -526,4 +524,37 @@ pub fn avoid_single_dense_union(ty: &mut LType) -> bool {
         _ => {}
     }
     hit
+}
+
+/// truncate every string / byte value (at any depth) to at most `max` bytes (on a char boundary): byte-view arrays
+/// whose values all fit inline have no data buffers when built plainly, which selects the inline-key fast paths
+pub fn shorten(v: &mut LValue, max: usize) {
+    match v {
+        LValue::Str(s) => {
+            while s.len() > max {
+                s.pop();
+            }
+        }
+        LValue::Bytes(b) => b.truncate(max),
+        LValue::List(xs) | LValue::Struct(xs) => xs.iter_mut().for_each(|x| shorten(x, max)),
+        LValue::Map(es) => es.iter_mut().for_each(|(k, x)| {
+            shorten(k, max);
+            shorten(x, max)
+        }),
+        LValue::Union(_, b) => shorten(b, max),
+        _ => {}
+    }
+}
+pub fn has_view(ty: &LType) -> bool {
+    ty.any(&|t| matches!(t, LType::Utf8(Enc::View) | LType::Binary(Enc::View)))
+}
+/// for types containing byte views: half of the time make every value inline-sized and ask for a plain layout
+pub fn inline_views(t: &mut Tape, ty: &LType, col: &mut [LValue]) -> bool {
+    if has_view(ty) && !ty.any(&|t| matches!(t, LType::FixedBinary(_))) && t.bool() {
+        let max = *t.pick(&[12usize, 12, 4, 8]);
+        col.iter_mut().for_each(|v| shorten(v, max));
+        true
+    } else {
+        false
+    }
 }
